@@ -36,9 +36,9 @@ def oracle(content, p, k):
     # the statement: "the text of that line (left-trimmed, truncated at 200 bytes)" - the indentation does not count against the 200 bytes
     trimmed = line.lstrip(b" \t")
     shown = trimmed if len(trimmed) <= 200 else trimmed[:197] + b"..."
-    has_visible = trimmed != b""
-    caret = max(0, (p - pos) - lead) if line.strip(b" \t") != b"" else None
-    return ln, (shown if has_visible else None), caret
+    # a line of blanks only: its left-trimmed text is empty and the caret stands at the first column
+    caret = max(0, (p - pos) - lead)
+    return ln, shown, caret
 
 
 def judge_render(ctx, label, cases):
